@@ -59,6 +59,13 @@ CHECKS = {
             "state equal to the sequential run. Failures are replayed twice before being reported.",
             "sequential consistency between scheduling points; the hook points cover the library's complete synchronisation inventory; unsynchronised accesses are left to the TSan pass",
             "DESIGN.md 4/C08", True),
+    "C16": ("xlife", "model_checking",
+            "exhaustive enumeration of all legal lifecycle operation sequences up to a depth bound (legality from a reference state machine), each executed on the real library under AddressSanitizer with resource accounting",
+            "Every legal sequence of up to 6 (quick) / 8 (thorough) lifecycle operations over one program, one kept executor and one detached "
+            "code object is executed 4 times in a fresh process: no sanitizer report, every run/emulate result equal to the expected vector, "
+            "invalid programs compile to a fatal result, and live heap bytes, used code chunks, regions and descriptors do not grow with repetitions.",
+            "legality rules are the documented ones (stated in the evidence); AddressSanitizer's allocator statistics; one object of each kind",
+            "DESIGN.md 4/C16", True),
 }
 
 NOT_YET = {}
@@ -99,6 +106,8 @@ def main():
             "add_only": True,
         },
         "engines": [
+            {"name": "xlife", "path": "engines/xlife.c", "serves_properties": ["C16"],
+             "kind_free_text": "depth-first enumeration of legal lifecycle sequences from a reference state machine; fork per sequence from an initialised zygote (ASan build)"},
             {"name": "xsched", "path": "engines/xsched.c", "serves_properties": ["C08"],
              "kind_free_text": "cooperative scheduler over hooked synchronisation points + depth-first preemption-bounded explorer, fork per schedule, shared-memory trace so crashed schedules replay"},
             {"name": "xbc", "path": "engines/xbc.c", "serves_properties": ["C13"],
